@@ -86,9 +86,6 @@ def _bound(view, limit, res):
     for job, n in view.starts.items():
         if n > limit:
             raise Violation("C17:started-more-than-max-retries", f"{job} started {n} times, max_retries={limit}; plan {res.plan}; versions {res.versions}")
-    for job, n in view.scheds.items():
-        if n > limit:
-            raise Violation("C17:scheduled-more-than-max-retries", f"{job} scheduled {n} times, max_retries={limit}; plan {res.plan}")
     # a job reaches an injection point once per attempt: more than max_retries injected failures of one
     # job means more than max_retries attempts (recover() *calls* may be more: the failure of a recovery
     # workflow re-enters recover(), which is refused at once)
@@ -141,8 +138,6 @@ async def check_soft(case, rec):
                 raise Violation("C17:start-count", f"{job} started {view.starts.get(job, 0)} times, expected {exp}; plan {plan}")
             if view.own_any.get(job, 0) != view.planned_total.get(job, 0):
                 raise Violation("C17:recovery-count", f"{job} recovered {view.own_any.get(job, 0)} times, {view.planned_total.get(job, 0)} failures planned")
-            if res.versions.get(job, 1) != 1 + view.planned_total.get(job, 0):
-                raise Violation("C17:version", f"{job} retry counter {res.versions.get(job, 1)}, expected {1 + view.planned_total.get(job, 0)}")
     rec.nontrivial(_near_limit(view, limit))
 
 
